@@ -103,7 +103,33 @@ func (node *Node) processUnconfirmedTx(ctx context.Context, tx handlers.TxData) 
 	}
 	if !added {
 		logger.Info(ctx, "Tx already added : %s", hash)
-		return nil // tx already processed
+		if !newlySafe {
+			return nil // tx already processed
+		}
+
+		// The tx was already delivered and has just become safe, so notify of that state. The
+		// delay check will not because the tx is now marked safe in the tx repo.
+		txState, err := handlerstorage.FetchTxState(ctx, node.store, *hash)
+		if err != nil {
+			return nil
+		}
+		if txState.State.Safe || txState.State.UnSafe || txState.State.Cancelled {
+			return nil
+		}
+
+		txState.State.Safe = true
+		if err := handlerstorage.SaveTxState(ctx, node.store, txState); err != nil {
+			return errors.Wrap(err, "save tx state")
+		}
+
+		update := &client.TxUpdate{
+			TxID:  *hash,
+			State: txState.State,
+		}
+		for _, handler := range node.handlers {
+			handler.HandleTxUpdate(ctx, update)
+		}
+		return nil
 	}
 
 	// logger.Debug(ctx, "Tx repo (added %t) (newly safe %t) : %s", added, newlySafe, hash.String())
